@@ -15,6 +15,8 @@ hooks = {
     "source_commits": [],
     "add_only": True,
 }
+COMMON_TECHNIQUE = "; the same monitors run while part of the workload is driven in hostile process environments (warnings as errors, debug logging, foreign print options; other float types where stated), objects handed out by earlier steps are held with a copy and compared after later steps, and read-only calls are made between steps with the engine state compared around each (vf/env.py)"
+COMMON_NOTE = "; oracles compute in a neutral environment; the only excused environment failure is NumPy's overflow warning turned into an error"
 checks = []
 for pid, c in CHECKS.items():
     checks.append(
@@ -26,8 +28,8 @@ for pid, c in CHECKS.items():
             "replay_cmd_template": f"./check {pid} --replay {{path}}",
             "engine": "vf",
             "level_claimed": {"category": c["level"], "text": c["text"], "design_ref": f"DESIGN.md §4 {pid}"},
-            "level_note": c["note"],
-            "technique": c["technique"],
+            "level_note": c["note"] + COMMON_NOTE,
+            "technique": c["technique"] + COMMON_TECHNIQUE,
         }
     )
 manifest = {
